@@ -59,6 +59,8 @@ CONSTANTS = {
         ("SHAPE_UNARY_OPT", _PA, r"match op\(unsafe \{ self\.value_unchecked\(idx\) \}\) \{\s*Some\(v\) => unsafe \{ \*slice\.get_unchecked_mut\(idx\) = v \},\s*None => \{\s*out_null_count \+= 1;\s*null_builder\.set_bit\(idx, false\);[\s\S]*?(\d+)", "int"),
         ("SHAPE_TRY_UNARY", _PA, r"unsafe \{ \*slice\.get_unchecked_mut\(idx\) = op\(self\.value_unchecked\(idx\)\)\? \};\s*Ok::<_, E>\(\(\)\)\s*\};\s*match &nulls \{\s*Some\(nulls\) => nulls\.try_for_each_valid_idx\(f\)\?,\s*None => \(0\.\.len\)\.try_for_each\(f\)\?,[\s\S]*?(\d+)", "int"),
         ("SHAPE_PARSER_PRIMITIVE", "arrow-cast/src/parse.rs", r"match atoi::FromRadix10SignedChecked::from_radix_10_signed_checked\(raw_bytes\) \{\s*\(Some\(n\), x\) if x == raw_bytes\.len\(\) => Some\(n\),[\s\S]*?(\d+)", "int"),
+        # run-end "expand" arm: take the logical window FIRST, then cast the taken rows
+        ("SHAPE_REE_TAKE_THEN_CAST", "arrow-cast/src/cast/run_array.rs", r"_ => \{\s*let values = run_array\.values\(\);\s*let len = run_array\.len\(\);\s*let offset = run_array\.offset\(\);[\s\S]*?let taken = take\(&values, &Int32Array::from_iter_values\(indices\), None\)\?;\s*if taken\.data_type\(\) != to_type \{\s*cast_with_options\(taken\.as_ref\(\), to_type, cast_options\)\s*\} else \{\s*Ok\(taken\)[\s\S]*?(\d+)", "int"),
         ("SHAPE_VALID_PRECISION", _D, r"precision <= DECIMAL128_MAX_PRECISION\s*&& value >= MIN_DECIMAL128_FOR_EACH_PRECISION\[precision as usize\]\s*&& value <= MAX_DECIMAL128_FOR_EACH_PRECISION\[precision as usize\][\s\S]*?(\d+)", "int"),
     ],
 }
